@@ -4,10 +4,11 @@
 import json, os, shutil, subprocess, sys
 ROOT = os.path.dirname(os.path.dirname(os.path.abspath(__file__)))
 pid, var = sys.argv[1], sys.argv[2]
-extra = [a for a in sys.argv[3:] if a != "round2"]
+extra = [a for a in sys.argv[3:] if a not in ("round2", "round3")]
 round2 = "round2" in sys.argv[3:]
-src = f"/tmp/mutout2_{pid}/{var}" if round2 else f"/tmp/mutout_{pid}/{var}"
-label = pid + ({"a": "c", "b": "d"}[var] if round2 else var)
+round3 = "round3" in sys.argv[3:]
+src = f"/tmp/mutout3_{pid}/{var}" if round3 else f"/tmp/mutout2_{pid}/{var}" if round2 else f"/tmp/mutout_{pid}/{var}"
+label = pid + ({"a": "e", "b": "f"}[var] if round3 else {"a": "c", "b": "d"}[var] if round2 else var)
 wt = f"/tmp/mut_{pid}"
 patch = os.path.join(src, "patch.diff")
 ran = []
